@@ -250,7 +250,7 @@ def run_job(spec):
                         res['witness_bad'].append(dict(why='concrete run raised %s: %s' % (type(e).__name__, str(e)[:200]),
                                                        tb=traceback.format_exc()[-800:]))
         st = ctx.stats
-        res.update(decisions=st['decisions'] + st.get('sub_decisions', 0), forks=st['forks'] + st.get('sub_forks', 0),
+        res.update(decisions=st['decisions'] + st.get('sub_decisions', 0) + st['realisations'] + st.get('sub_realisations', 0), forks=st['forks'] + st.get('sub_forks', 0),
                    queries=st['queries'] + st.get('sub_queries', 0), solver_s=round(st['solver_s'] + st.get('sub_solver_s', 0.0), 3),
                    aborted=st['aborted'], inconclusive_paths=st['inconclusive_paths'] + st.get('sub_inconclusive_paths', 0),
                    fallbacks=st['fallbacks'] + st.get('sub_fallbacks', 0), realisations=st['realisations'])
